@@ -182,6 +182,59 @@ def run(ctx):
                 if not uniq:
                     rep["finding_key"] = "D15-semantic-tie-order"
                 ctx.violation(f"{name} changed the result: " + d, rep)
+    # structures spanning the volume along an axis (touching two opposite faces) under the surface-distance metric: embedding the same
+    # structures into a larger volume, or cropping shared empty margins, must not change any border or distance
+    for _ in range(ctx.scale(40, 300)):
+        nd = rng.choice([2, 2, 3])
+        shape = [rng.randint(3, 7) for _k in range(nd)]
+        r = np.zeros(shape, "uint8")
+        p = np.zeros(shape, "uint8")
+        ax = rng.randrange(nd)
+        for lab in range(1, rng.randint(1, 2) + 1):
+            sl = []
+            for k in range(nd):
+                a = rng.randrange(shape[k])
+                sl.append(slice(a, min(shape[k], a + rng.randint(1, 3))))
+            span = rng.random() < 0.8
+            if span:
+                sl[ax] = slice(None)                       # touches both faces of axis ax
+            blk = np.zeros(shape, bool)
+            blk[tuple(sl)] = True
+            r[blk & (r == 0)] = lab
+            other = rng.choice([k for k in range(nd) if k != ax]) if nd > 1 else ax
+            pb = np.roll(blk, rng.choice([0, 0, 1, -1]), axis=other) if rng.random() < 0.6 else blk.copy()
+            if rng.random() < 0.4:
+                idx = np.argwhere(pb)
+                pb[tuple(idx[rng.randrange(len(idx))])] = False
+            p[pb & (p == 0)] = lab
+        it = rng.choice(["matched", "unmatched"])
+        cfg = gen_cfg(rng, it)
+        cfg["imetrics"] = rng.choice([["ASSD", "IOU"], ["DSC", "IOU", "ASSD", "RVD"]])
+        cfg.pop("dmetric", None); cfg.pop("dthr", None)
+        cfg["gmetrics"] = rng.choice([[], ["ASSD"], ["DSC", "ASSD"]])
+        if it == "unmatched":
+            cfg["matcher"], cfg["m2o"] = "naive", False
+            cfg["mmetric"], cfg["mthr"] = rng.choice([("IOU", 0.0), ("IOU", 0.25), ("ASSD", 3.0), ("ASSD", 100.0)])
+        if not meta.unique_matching(cfg, p, r):
+            continue
+        o1 = impl.evaluate(impl.make_evaluator(cfg), p.copy(), r.copy())
+        pads = [(rng.randint(1, 3), rng.randint(1, 3)) for _k in range(nd)]
+        ts = [("pad-all-faces", np.pad(p, pads), np.pad(r, pads))]
+        one = [(0, 0)] * nd
+        one[ax] = (rng.randint(1, 2), rng.randint(0, 2))
+        ts.append(("pad-spanned-axis", np.pad(p, one), np.pad(r, one)))
+        nzr = np.argwhere((p != 0) | (r != 0))
+        if len(nzr):
+            lo, hi = nzr.min(0), nzr.max(0) + 1
+            ts.append(("crop-margins", p[tuple(slice(int(a), int(b)) for a, b in zip(lo, hi))], r[tuple(slice(int(a), int(b)) for a, b in zip(lo, hi))]))
+        for name, p2, r2 in ts:
+            o2 = impl.evaluate(impl.make_evaluator(cfg), p2.copy(), r2.copy())
+            ctx.count({"cfg": cfg, "pred": p.tolist(), "ref": r.tolist(), "g": name}, bool(p.any() and r.any()))
+            ctx.bump(f"face-touching/{name}")
+            d = meta.same_outcome(o1, o2)
+            if d:
+                ctx.violation(f"{name} changed the result (structure touching opposite faces): " + d,
+                              {"cfg": cfg, "pred": p, "ref": r, "transform": name, "pred2": p2, "ref2": r2})
     # the D15 witness (semantic input, two equal-score competing candidates; left-right flip)
     w = common.VERIF / "corpus" / "C10" / "d15.json"
     if w.exists():
